@@ -253,7 +253,7 @@ def c06(tier, replay=None):
     covs, opcov, alljobs = [], collections.Counter(), []
     itr_only = dict(CODES='{"a"}', CATS='{"k"}', VALS='{"s1"}', MaxNames=2, MaxLast=3)
     if tier == "quick":
-        plans = [("loop3-d5", dict(itr_only, SCRIPT="ScriptLoop", MaxHist=5, NAMES='{"_x", "_y", "_z"}', MaxPkt=2), "states")]
+        plans = [("loop3-d4", dict(itr_only, SCRIPT="ScriptLoop", MaxHist=4, NAMES='{"_x", "_y", "_z"}', MaxPkt=2), "states")]
     else:
         plans = [("loop3-d8", dict(itr_only, SCRIPT="ScriptLoop", MaxHist=8, NAMES='{"_x", "_y", "_z"}', MaxPkt=2), "states"),
                  ("loop1-d6", dict(itr_only, SCRIPT="ScriptLoop1", MaxHist=6, NAMES='{"_x", "_X", "_y", "_z"}', MaxPkt=2, PVALS='{"s1", "s2", "u"}'), "states")]
